@@ -304,12 +304,14 @@ impl W3Run {
         (best, self.next_poll[best])
     }
 
-    /// Apply a stall to station `i` at its next scheduled poll (skip Tslot/4 worth of polls).
+    /// Apply a stall to station `i`: the gap between its previous poll and its next poll becomes the
+    /// maximum the quantifier allows (Tslot/4); polls inside are skipped, then the grid resumes.
     pub fn stall_next(&mut self, i: usize) {
         let window = self.cfg.slot_us() / 4;
-        let until = self.next_poll[i] + window;
+        let prev = self.next_poll[i] - self.period[i];
+        let until = prev + window;
         self.stalls_used.push((i, self.poll_idx[i]));
-        while self.next_poll[i] < until {
+        while self.next_poll[i] + self.period[i] <= until {
             self.next_poll[i] += self.period[i];
             self.poll_idx[i] += 1;
         }
@@ -322,9 +324,9 @@ impl W3Run {
         self.flush_responses(t);
         self.now = t;
         // configured stalls
-        if self.cfg.stalls.iter().any(|(s, k)| *s == i && *k == self.poll_idx[i]) {
+        if self.cfg.stalls.iter().any(|(s, k)| *s == i && *k == self.poll_idx[i]) && !self.stalls_used.iter().any(|(s, k)| *s == i && *k == self.poll_idx[i]) {
             self.stall_next(i);
-            return (i, false);
+            return self.step();
         }
         self.next_poll[i] += self.period[i];
         self.poll_idx[i] += 1;
